@@ -53,6 +53,8 @@ def parseAtom : List String → Option Atom
   | ["failure"] => some .failure
   | ["everything"] => some .everything
   | ["require", n] => some (.require (nat! n))
+  | ["utf8Range", f, lo, hi] => some (.utf8Range (f == "1") (nat! lo) (nat! hi))
+  | ["maxDigits", mx] => some (.maxDigits (nat! mx))
   | _ => none
 
 def parseCatch (s : String) : Catch :=
